@@ -53,6 +53,7 @@ type c06In struct {
 	// context is cancelled while it is blocked behind the busy workers; Lists handlers run at once
 	Stalled int `json:",omitempty"`
 	Lists   int `json:",omitempty"`
+	HoldMs  int `json:",omitempty"` // > 0: nobody cancels; the dials simply hang this long before they end
 }
 
 type c06Obs struct {
@@ -196,7 +197,12 @@ func c06RunStalled(in c06In, slow time.Duration) (obs c06Obs) {
 		return c06Obs{Res: 2, Note: "the ten workers never got busy"}
 	}
 	time.Sleep(60 * time.Millisecond * slow)
-	cancel() // the sender goes away
+	if in.HoldMs > 0 {
+		time.Sleep(time.Duration(in.HoldMs) * time.Millisecond) // the handlers stay blocked behind the workers
+		close(sv.gate)
+	} else {
+		cancel() // the sender goes away
+	}
 	for l := 0; l < lists; l++ {
 		select {
 		case err := <-done:
@@ -207,7 +213,9 @@ func c06RunStalled(in c06In, slow time.Duration) (obs c06Obs) {
 			return c06Obs{Res: 1, Note: "a handler did not return after its context was cancelled"}
 		}
 	}
-	close(sv.gate) // the stalled dials end
+	if in.HoldMs <= 0 {
+		close(sv.gate) // the stalled dials end
+	}
 	// quiescence: no parked dial and the number of dials stable for a while
 	last, stable := -1, 0
 	c06Until(10*time.Second*slow, func() bool {
@@ -221,19 +229,29 @@ func c06RunStalled(in c06In, slow time.Duration) (obs c06Obs) {
 		time.Sleep(10 * time.Millisecond)
 		return stable >= 15
 	})
-	before, _ := sv.counts()
-	// liveness: a further small list is processed
-	pctx, pcancel := context.WithTimeout(context.Background(), 10*time.Second*slow)
-	defer pcancel()
-	if err := d.Streams()[0].Handler(pctx, p2p.Peer{Type: p2p.PeerTypeBootnode}, &c06Stream{raw: c06List(3, 200)}); err != nil {
-		return c06Obs{Res: 1, Note: "a later list was refused: " + err.Error()}
+	// liveness: a further small list is processed (one more attempt with doubled deadlines before the service is
+	// declared not serving)
+	var note string
+	for attempt := 1; attempt <= 2; attempt++ {
+		before, _ := sv.counts()
+		limit := time.Duration(attempt) * 10 * time.Second * slow
+		pctx, pcancel := context.WithTimeout(context.Background(), limit)
+		err := d.Streams()[0].Handler(pctx, p2p.Peer{Type: p2p.PeerTypeBootnode}, &c06Stream{raw: c06List(3, 200+attempt)})
+		ok := err == nil && c06Until(limit, func() bool { n, _ := sv.counts(); return n >= before+3 })
+		pcancel()
+		if ok {
+			n, _ := sv.counts()
+			obs.Dialled = n
+			return obs
+		}
+		if err != nil {
+			note = fmt.Sprintf("a later list was refused (attempt %d): %v", attempt, err)
+		} else {
+			n, _ := sv.counts()
+			note = fmt.Sprintf("a later list was not processed (attempt %d): %d of 3 entries dialled", attempt, n-before)
+		}
 	}
-	if !c06Until(10*time.Second*slow, func() bool { n, _ := sv.counts(); return n >= before+3 }) {
-		n, _ := sv.counts()
-		return c06Obs{Res: 1, Note: fmt.Sprintf("a later list was not processed: %d of 3 entries dialled", n-before)}
-	}
-	obs.Dialled = before
-	return obs
+	return c06Obs{Res: 1, Note: note}
 }
 
 func c06Inp(in c06In) string {
@@ -456,7 +474,7 @@ func TestVerifC06(t *testing.T) {
 		if err := json.Unmarshal(raw, &in); err != nil || in.Pkg != c06Pkg {
 			continue
 		}
-		if in.Entry == "peers-list-stalled" && (in.Stalled < 1 || in.Stalled > 2000 || in.Lists > 16) {
+		if in.Entry == "peers-list-stalled" && (in.Stalled < 1 || in.Stalled > 2000 || in.Lists > 16 || in.HoldMs < 0 || in.HoldMs > 120000) {
 			continue
 		}
 		run("replay", in)
@@ -527,5 +545,8 @@ func TestVerifC06(t *testing.T) {
 	}
 	for i, n := range sizes {
 		run("stalled-workers", c06In{Pkg: c06Pkg, Entry: "peers-list-stalled", Stalled: n, Lists: 1 + i%2*2})
+	}
+	if e.Tier == "thorough" { // the dials hang for longer than any plausible internal deadline, nobody cancels
+		run("stalled-workers-long-hold", c06In{Pkg: c06Pkg, Entry: "peers-list-stalled", Stalled: 14, Lists: 2, HoldMs: 33000})
 	}
 }
